@@ -97,6 +97,18 @@ def _subtree_(task):
     """worker: DFS below one prefix until the time budget is used; returns aggregate"""
     import warnings
     warnings.filterwarnings('ignore', category=RuntimeWarning)
+    if 'stderr' not in _worker_state:
+        # "Exception ignored in ..." chatter of finalizers (abandoned coroutines are closed by
+        # the garbage collector between paths) goes to a scratch file, not to the verdict
+        _worker_state['stderr'] = True
+        try:
+            d = os.path.join(os.path.dirname(os.path.dirname(os.path.abspath(__file__))), '.scratch')
+            os.makedirs(d, exist_ok=True)
+            fd = os.open(os.path.join(d, 'worker-stderr.log'),
+                         os.O_WRONLY | os.O_CREAT | os.O_TRUNC)
+            os.dup2(fd, 2)
+        except OSError:
+            pass
     (modname, famname, tier, prefix, terms, budget_s, budget_paths, every, seed,
      selftest, dump_max) = task
     if not _seen_code and 'mon' not in _worker_state:
